@@ -279,7 +279,7 @@ def run(ctx):
     ctx.rule("R04.4", "ARGMATCH-CLONES: rtosc_match_args (dispatch.c), arg_matcher and Port_Matcher::rtosc_match_args (ports.cpp) are the same function up to renaming and the way the type string is obtained")
     ctx.rule("R04.5", "REFRESH: every constructor that fills Ports::ports calls refreshMagic() after the last mutation on every path")
     ctx.rule("R04.6", "HASH-AGREE: the run-time hash in Ports::dispatch equals the build-time formula of do_hash (initial value = length, guard p < length, += assoc[str[p]]), and the range check against remap.size() precedes remap[t]")
-    f = [x for x in m.functions.values() if re.match(r'^rtosc::Ports::dispatch\(', P.dm(x.name))]
+    f = [x for x in m.functions.values() if re.match(r'^rtosc::Ports::dispatch\([^()]*\)( const)?$', P.dm(x.name))]
     ctx.require(len(f) == 1, "Ports::dispatch not found in IR")
     f = f[0]
     I_obj, I_port, I_matches, I_loc = (field_index(u, "RtData", n) for n in ("obj", "port", "matches", "loc"))
